@@ -299,7 +299,7 @@ def getvector(v, dim=None, out='array', dtype=np.float64):
         if sym.issymbol(v):
             dt = None
             
-        if dim is not None and v and len(v) != dim:
+        if dim is not None and len(v) != dim:
             raise ValueError("incorrect vector length")
         if out == 'sequence':
             return v
